@@ -168,6 +168,10 @@ class Impl(object):
             self.c = conducting.WorkflowConductor(
                 self.spec, context=render.undict(op.get("ctx") or {}),
                 inputs=render.undict(op.get("inputs") or {}))
+            if op.get("persist_first"):
+                # persisted and restored before anything else has touched the conductor
+                data = json.loads(json.dumps(self.c.serialize()))
+                self.c = conducting.WorkflowConductor.deserialize(data)
             self.c.get_workflow_status()
             return {"res": None, "state": self.state()}
         if name == "compose":
